@@ -204,7 +204,11 @@ def c11_satevidence(R):
             blk = _block_of(node)
             idx = next(i for i, s in enumerate(blk) if s is node)
             ev = None
-            for prev in reversed(blk[:idx]):
+            before = list(blk[:idx])
+            par = node._parent
+            if isinstance(par, ast.Try) and blk is par.orelse:
+                before = list(par.body) + before  # `else:` of a try runs after the body completed normally
+            for prev in reversed(before):
                 if isinstance(prev, ast.Assign) and isinstance(prev.value, ast.Call):
                     mname = util.is_super_call(prev.value) or (
                         prev.value.func.attr if isinstance(prev.value.func, ast.Attribute) else None
